@@ -3,7 +3,7 @@ commentStmtEx, commentFunc; the cb.comments backup/restore discipline of the com
 cl/compile.go loadFuncBody / lazy function loading).
 
 A  Props/C09.v : C09_directive_maps_first_line (all packages whose doc comments are adjacent), C09_stmts_anchored,
-   C09_go_line_of_anchored, C09_tags_exact, C09_every_statement_emitted, C09_compile_total,
+   C09_go_line_of_anchored, C09_tags_exact, C09_every_statement_emitted, C09_compile_total, C09_directive_file_resolves,
    C09_directive_maps_first_line_refuted_without_guard (block-comment doc of a local declaration)
 B  K-diff, two sided, on generated multi-file packages (one `go build`, one run):
    (shape)    per emitted function, the sequence of //line directives, doc lines and code lines of the Go text
@@ -333,8 +333,9 @@ def gen_package(rng, idx, main=False):
                 lines.append("}")
         name = "main.xgo" if main else ["a.xgo", "b.xgo"][fi]
         files.append({"name": name, "src": "\n".join(lines) + "\n"})
-    relbase = ["pkg", "root", "abs"][rng.below(3)]
+    relbase = ["pkg", "root", "abs", "sub", "sib"][rng.below(5)]
     g.hist["calls:" + direction] = 1
+    g.hist["relbase:" + relbase] = 1
     return {"pkg": pkg, "dir": "." if main else pkg, "relbase": relbase, "files": files}, g.hist
 
 
@@ -588,6 +589,23 @@ def run(ctx):
         return
     models = {r["pkg"]: parse_model(l) for r, l in zip(okres, mlines)}
 
+    # ---------------- B0: the file names of the directives (filepath.Rel(RelativeBase, file)) ~ rel_path
+    def comps(path):
+        return [c for c in path.split("/") if c]
+    fn_cases, fn_queries = [], []
+    for c in cases:
+        r = next((x for x in okres if x["pkg"] == c["pkg"]), None)
+        if r is None or c["relbase"] == "abs":
+            continue
+        d = os.path.normpath(os.path.join(root, c["dir"]))
+        base = {"pkg": d, "root": root, "sub": os.path.join(d, "gen", "deep"), "sib": os.path.join(root, "zz", "y")}[c["relbase"]]
+        for i, f in enumerate(sorted(x["name"] for x in c["files"])):
+            fn_cases.append(("%s %s %s" % (c["pkg"], c["relbase"], f), r["fnames"][i]))
+            fn_queries.append("(rel (%s) (%s))" % (" ".join(comps(base)), " ".join(comps(os.path.join(d, f)))))
+    if fn_queries:
+        rc, fout = ctx.run([model], input="\n".join(fn_queries) + "\n")
+        ctx.diff_lines("directive file name ~ rel_path", [c for c, _ in fn_cases], "\n".join("REL=" + n for _, n in fn_cases), fout)
+
     # ---------------- B1: shape of the emitted text, function by function
     shape_cases, shape_impl, shape_model = [], [], []
     nlines = ndirs = 0
@@ -707,7 +725,7 @@ def run(ctx):
     ctx.cover(evaluations=len(rt_cases) + len(shape_cases), distinct_nontrivial=len(set(rt_cases)),
               samples=[{"case": rt_cases[i], "observed": rt_impl[i], "model": rt_model[i]} for i in (0, len(rt_cases) // 2, len(rt_cases) - 1)],
               rule="%d deterministic packages (regression + known-finding inputs) + %d seeded packages (1-2 files, 1-6 functions/methods "
-                   "each, nesting depth <= 3, relbase in {pkg,root,abs}) + 1 seeded main package with a shadow entry; all in one go build "
+                   "each, nesting depth <= 3, RelativeBase in {package dir, module root, none, below the package, beside it}) + 1 seeded main package with a shadow entry; all in one go build "
                    "and one run; evaluations = emitted functions compared structurally (%d, %d text lines, %d directives) + runtime "
                    "positions compared (%d executed marks / function entries, %d of them checked by the direct oracle; %d executed marks "
                    "that are not the first marked call of their text line are not compared); "
@@ -716,7 +734,7 @@ def run(ctx):
                    "declarations are the known-finding dimension (deterministic set only); not generated: go statements, `defer mark(k)` (the runtime attributes a deferred call to the function's return point), goto, init functions, grouped declarations, package-level initialisers with calls"
                    % (ndet, len(cases) - ndet - 1, len(shape_cases), nlines, ndirs, len(rt_cases), nfirst, nsecond),
               generator_template_histogram=dict(sorted(hist.items())), statement_kind_histogram=dict(sorted(stmt_hist.items())),
-              harness_status=status_hist)
+              harness_status=status_hist, directive_file_names_compared=len(fn_cases))
     ctx.trust("modelled, not verified: cl/stmt.go (commentStmt, commentStmtEx, commentFunc, compileStmt and every compile*Stmt as far as "
               "cb.comments is concerned), cl/expr.go compileFuncLit/compileLambdaExpr/compileLambdaExpr2, cl/compile.go loadFunc/loadFuncBody/"
               "loadFile order — hand-written Gallina model tied by the structural and the runtime differential run",
